@@ -150,7 +150,7 @@ class Device(object):
             order = self.cfg.get('okay_order')
             late = order == 'late' or (order == 'choice' and self.env.ch.choose('okay-order', 2, (0, 1)) == 1)
             od = self.cfg.get('okay_delay')     # a slow device: the acknowledgement of the nth host WRTE of a stream is late
-            odelay = od['delay'] if od and od['nth'] == s.host_wrtes else 0.0
+            odelay = od['delay'] if od and od['nth'] == s.host_wrtes else (self.cfg.get('okay_delay_all') or 0.0)      # okay_delay_all: every acknowledgement takes that long
             if not late:
                 self.enqueue(s.q, Packet(b'OKAY', s.remote, s.local), odelay)    # adbd: send_ready() before the service sees the data
             if s.sync is not None:
